@@ -243,7 +243,7 @@ def drive_seq(case, work):
     sha0 = iofix.sha256(path)
     holder = h5py.File(path, "r") if case.get("lock") else None
     ws = iodrive.open_ws(path, "r")
-    out = {"fixture_problems": log, "ops": [], "handle0": iotrace.handle_state(ws)}
+    out = {"fixture_problems": log, "ops": [], "handle0": iotrace.handle_state(ws), "ncat": iodrive.n_concatenators(ws)}
     explicit = False
     n_saved = 0
     try:
@@ -419,10 +419,10 @@ def c_handle(h):
 
 
 def c_call(c):
-    fn, mode, _file, _line, _h, outc = c
+    fn, mode, _file, _line, _h, outc = c[:6]
     fails = outc not in ("ok", "ReadOnly", "Closed")
-    return ("{| c_fn := %s; c_writer := %s; c_req := %s; c_fails := %s |}"
-            % (cstr(fn), cbool(fn.startswith("H5Writer.")), MODES.get(mode, "R"), cbool(fails)))
+    return ("{| c_fn := %s; c_writer := %s; c_req := %s; c_fails := %s; c_repack := %s |}"
+            % (cstr(fn), cbool(fn.startswith("H5Writer.")), MODES.get(mode, "R"), cbool(fails), cbool(bool(c[6]) if len(c) > 6 else False)))
 
 
 def c_calls(calls):
@@ -516,7 +516,7 @@ def case_term(case, obs):
     if case["kind"] == "entry":
         r = obs["r"]
         op = op_term(case, r)
-        return ("agree_run (Open R) R false [%s] [%s] [%s] %s && sites_ok IOT %s"
+        return ("agree_run (Open R) R false 1 [%s] [%s] [%s] %s && sites_ok IOT %s"
                 % (op, c_err(r["exc"], r["calls"]), c_handle(r["handle_after"]), c_log(r["entries"]), c_sites(r["calls"])))
     if case["kind"] == "seq":
         ops, outs, hs, log, sites = [], [], [], [], []
@@ -529,8 +529,8 @@ def case_term(case, obs):
             hs.append(c_handle(rec["handle_after"]))
             log += [e for e in rec["entries"]]
             sites += rec["calls"]
-        return ("agree_run %s R %s %s %s %s %s && sites_ok IOT %s"
-                % (c_handle(obs["handle0"]), cbool(bool(case.get("lock"))), clist(ops), clist(outs), clist(hs), c_log(log), c_sites(sites)))
+        return ("agree_run %s R %s %s %s %s %s %s && sites_ok IOT %s"
+                % (c_handle(obs["handle0"]), cbool(bool(case.get("lock"))), cnat(obs.get("ncat", 1)), clist(ops), clist(outs), clist(hs), c_log(log), c_sites(sites)))
     # helpers
     which = case["which"]
     if which in ("path2workspace", "read_ui_json"):
@@ -539,10 +539,10 @@ def case_term(case, obs):
         hs = {c[4] for c in obs["calls"]}
         if obs["exc"] is not None or not hs <= {"r"}:
             return "false"
-        return ("agree_run Closed R false [OpenM None; Calls %s; Close] [None; None; None] [Open R; Open R; %s] %s && sites_ok IOT %s"
+        return ("agree_run Closed R false 1 [OpenM None; Calls %s; Close] [None; None; None] [Open R; Open R; %s] %s && sites_ok IOT %s"
                 % (c_calls(obs["calls"]), c_handle(obs["handle_after"]), c_log(obs["entries"]), c_sites(obs["calls"])))
     dm = MODES[obs["ctor_mode"]]
-    return ("agree_run %s %s false [MonitoredCopy %s] [%s] [%s] %s && sites_ok IOT %s"
+    return ("agree_run %s %s false 1 [MonitoredCopy %s] [%s] [%s] %s && sites_ok IOT %s"
             % (c_handle(obs["handle_before"]), dm, c_calls(_body_calls(obs)), c_err(obs["exc"], obs["calls"]),
                c_handle(obs["handle_after"]), c_log(obs["entries"]), c_sites(obs["calls"])))
 
